@@ -68,7 +68,13 @@ fn gen_case(t: &mut Tape, want_unreachable: bool) -> Result<AutoCase, String> {
         let render = format!("compiled from {}", prog.render());
         Ok(AutoCase { atoms: prog.atoms.clone(), dfa: dfas.last().unwrap().clone(), source: Source::Compiled(prog), render })
     } else {
-        let sem = gen_sem(t, &GenCfg { max_landmarks: 4, max_base: 5, max_clones: 3, max_unreachable: if want_unreachable { 3 } else { 1 } });
+        // mostly small automata; a sixth of the time large ones (worklists, tables and remappings that grow)
+        let cfg = if t.bool_p(42) {
+            GenCfg { max_landmarks: 3, max_base: 24, max_clones: 12, max_unreachable: if want_unreachable { 6 } else { 2 } }
+        } else {
+            GenCfg { max_landmarks: 4, max_base: 5, max_clones: 3, max_unreachable: if want_unreachable { 3 } else { 1 } }
+        };
+        let sem = gen_sem(t, &cfg);
         let spec = sem_to_spec(t, &sem);
         let render = format!("built from {}", spec.render());
         Ok(AutoCase { atoms: sem.atoms.clone(), dfa: sem_dfa(&sem), source: Source::Built(spec, sem), render })
@@ -227,6 +233,9 @@ pub fn run_c04(tape: &[u8], cx: &Cx) -> Outcome {
     }
     if a.num_states() >= 6 {
         o.tag(">=6-states");
+    }
+    if a.num_states() >= 16 {
+        o.tag(">=16-states");
     }
     o
 }
